@@ -432,10 +432,11 @@ fn families(quick: bool) -> Vec<LmFamily> {
 }
 
 const ROW_NAMES: [&str; 8] = ["", "c1", "c2", "c3", "cap", "r$1", "x", "c_2"];
-const VAR_NAMES: [&str; 5] = ["x", "$abs_0", "x_1", "y2", "c1"];
+const VAR_NAMES: [&str; 8] = ["x", "$abs_0", "x_1", "y2", "c1", "e1", "E3", "e"];
+const VAR_DOMS: [Dom; 4] = [Dom::NonNeg, Dom::Real(-1.0, 2.0), Dom::Bool, Dom::Int(0, 5)];
 
 fn naming_size() -> u64 {
-    (ROW_NAMES.len() as u64).pow(3) * (VAR_NAMES.len() as u64) * 2
+    (ROW_NAMES.len() as u64).pow(3) * (VAR_NAMES.len() as u64) * 2 * VAR_DOMS.len() as u64
 }
 fn naming_case(i: u64) -> LmSpec {
     let mut d = Digits(i);
@@ -446,8 +447,9 @@ fn naming_case(i: u64) -> LmSpec {
     }
     let v0 = *d.of(&VAR_NAMES);
     let second = if d.pick(2) == 0 { "y" } else { "$max_0_select_1" };
+    let dom0 = d.of(&VAR_DOMS).clone();
     LmSpec {
-        vars: vec![(v0.to_string(), Dom::NonNeg), (second.to_string(), Dom::Int(-1, 3))],
+        vars: vec![(v0.to_string(), dom0), (second.to_string(), Dom::Int(-1, 3))],
         rows,
         obj: vec![1.0, -1.0],
         offset: 0.0,
